@@ -462,6 +462,9 @@ func (mr MeshReader) Read(reader io.Reader) (*modeling.Mesh, error) {
 			}
 
 			contents := strings.Fields(text)
+			if len(contents) < len(vertexElement.Properties) {
+				return nil, fmt.Errorf("%q entry %d has %d values, expected %d", mr.AttributeElement, i, len(contents), len(vertexElement.Properties))
+			}
 
 			for _, reader := range asciiReaders {
 				err = reader.Read(contents, i)
